@@ -298,6 +298,15 @@ func runC12(c *mon.Ctx) {
 			events := make([][]c12event, G)
 			var wg sync.WaitGroup
 			start := make(chan struct{})
+			// last round, on children with enough Ps: a further configuration is alive and used by every other goroutine
+			// at the same time (two configurations must not share anything mutable)
+			var oC *opCtx
+			if round == len(rounds)-1 && haveNewSettings {
+				if confC, err := ipa.NewIPASettings(); err == nil {
+					oC = newOpCtx(&Env{Conf: confC, Ref: env.Ref}, c.Seed*1000+int64(c.Shard), c.Rand(fmt.Sprintf("c12/%d", c.Shard)))
+					c.Count("rounds_with_two_configurations_in_use", 1)
+				}
+			}
 			for g := 0; g < G; g++ {
 				g := g
 				r := rand.New(rand.NewSource(c.Seed*7919 + int64(c.Shard)*104729 + int64(round)*1299709 + int64(g)))
@@ -327,9 +336,13 @@ func runC12(c *mon.Ctx) {
 				go func() {
 					defer wg.Done()
 					<-start
+					og := o
+					if oC != nil && g%2 == 1 {
+						og = oC
+					}
 					for _, in := range plan {
 						ev := c12event{g: g, inst: in, call: atomic.AddInt64(&seq, 1)}
-						p, _ := mon.Try(func() { ev.digest = o.exec(in.kind, in.k) })
+						p, _ := mon.Try(func() { ev.digest = og.exec(in.kind, in.k) })
 						ev.panicked = p
 						ev.ret = atomic.AddInt64(&seq, 1)
 						events[g] = append(events[g], ev)
